@@ -60,6 +60,17 @@ def gen(ctx):
         ds = docs if ctx.tier != "quick" else (docs[:2] + ctx.rng.sample(docs[2:], 3))
         for d in ds:
             cases.append({"text": t, "doc": d, "ctx": ctx.rng.choice(qpool.CONTEXTS)})
+    # inputs on which the synchronous call raises: the asynchronous call must raise the same kind of error
+    for t in ("$.a", "$..*", "$[?@.a == 1]", "$.a | $.b"):
+        for d in ('{"a": [1', "[1, 2", '{"a": 1}}', b"\xff\xfe".decode("latin-1")):
+            cases.append({"text": t, "doc": d, "ctx": {}, "raw": True})
+    deep = cur = []
+    for _ in range(3000):
+        nxt = []
+        cur.append(nxt)
+        cur = nxt
+    cases.append({"text": "$..*", "doc": deep, "ctx": {}, "raw": True})
+    cases.append({"text": "$..[?@ == 1]", "doc": deep, "ctx": {}, "raw": True})
     return cases
 
 
@@ -82,9 +93,13 @@ def evaluate(ctx, cases):
         if "err" in o:
             ctx.count("compile-error")
             continue
+        if c.get("raw"):
+            reqs.append({"op": "ping"})
+            meta.append((c, o["ok"]))
+            continue
         try:
             reqs.append(qeval.build_request(o["ok"], c["doc"], c.get("ctx")))
-        except core.Unencodable:
+        except (core.Unencodable, RecursionError):
             continue
         meta.append((c, o["ok"]))
     outs = ctx.driver.run(reqs, jobs=ctx.jobs)
@@ -93,14 +108,34 @@ def evaluate(ctx, cases):
         batch = []
         for (c, compiled), m in zip(meta, outs):
             doc, extra = c["doc"], c.get("ctx") or {}
-            inp = {"text": c["text"], "doc": doc, "filter_context": extra}
+            inp = {"text": c["text"], "doc": doc if not (c.get("raw") and isinstance(doc, list)) else "<3000 nested arrays>", "filter_context": extra}
             s = _sync(compiled, doc, extra)
-            ctx.case((c["text"], repr(doc), repr(extra)), bool(s.get("ok")), sample={"query": c["text"], "doc": doc, "matches": len(s.get("ok", []))})
+            ctx.case((c["text"], repr(doc) if not c.get("raw") else str(type(doc)) + str(len(doc)), repr(extra)), bool(s.get("ok")), sample={"query": c["text"], "doc": doc, "matches": len(s.get("ok", []))})
             ctx.count("sync:" + ("ok" if "ok" in s else s["err"]))
             a_it = core.outcome(lambda: loop.run_until_complete(_async_iter(compiled, doc, extra)))
             a_all = core.outcome(lambda: loop.run_until_complete(_async_all(compiled, doc, extra)))
-            wdoc = wrap(doc)
+            wdoc = wrap(doc) if not c.get("raw") else doc
             a_w = core.outcome(lambda: loop.run_until_complete(_async_iter(compiled, wdoc, extra)))
+            if not c.get("raw") and ctx.rng.random() < (0.2 if ctx.tier == "quick" else 0.6):
+                # the module-level asynchronous entry points, findall_async on containers with asynchronous getters, and a
+                # filter context whose mappings have asynchronous getters
+                import jsonpath
+                ctx.count("more-async-forms")
+                more = {
+                    "jsonpath.finditer_async": lambda: loop.run_until_complete(_collect(jsonpath.finditer_async(c["text"], doc, filter_context=extra))),
+                    "jsonpath.findall_async": lambda: loop.run_until_complete(jsonpath.findall_async(c["text"], doc, filter_context=extra)),
+                    "compiled.findall_async(async containers)": lambda: loop.run_until_complete(compiled.findall_async(wdoc, filter_context=extra)),
+                    "compiled.finditer_async(async filter context)": lambda: loop.run_until_complete(_collect(compiled.finditer_async(doc, filter_context=wrap(extra)))),
+                }
+                for name, fn in more.items():
+                    r = core.outcome(fn)
+                    if "ok" in r:
+                        got = [core.canon(x.obj) if hasattr(x, "obj") else core.canon(x) for x in r["ok"]]
+                    else:
+                        got = {"err": r["err"]}
+                    want_v = [n["val"] for n in s["ok"]] if "ok" in s else {"err": s["err"]}
+                    if got != want_v:
+                        ctx.violation("every asynchronous entry point must return what the synchronous call returns", {**inp, "entry_point": name}, got, want_v)
             norm = lambda r: r["ok"] if "ok" in r else {"err": r["err"]}  # noqa: E731
             if norm(a_it) != norm(s):
                 ctx.violation("finditer_async must produce the same matches (values, order, paths, parts) or the same kind of error as finditer", inp, norm(a_it) if "err" in a_it else a_it["ok"][:6], norm(s) if "err" in s else s["ok"][:6])
@@ -109,7 +144,7 @@ def evaluate(ctx, cases):
                 ctx.violation("findall_async must return the same values as findall", inp, norm(a_all), want_vals)
             if norm(a_w) != norm(s):
                 ctx.violation("containers with an asynchronous item getter that returns the same items must not change the result", inp, norm(a_w) if "err" in a_w else a_w["ok"][:6], norm(s) if "err" in s else s["ok"][:6])
-            if "ok" in s:
+            if "ok" in s and not c.get("raw"):
                 mod = m.get("nodes")
                 if [{"path": n["path"], "parts": n["parts"], "val": n["val"]} for n in mod] != s["ok"]:
                     ctx.mismatch("q.finditer(sync)", inp, s["ok"][:6], mod[:6])
@@ -121,6 +156,10 @@ def evaluate(ctx, cases):
             _gather(ctx, loop, batch)
     finally:
         loop.close()
+
+
+async def _collect(aw):
+    return [m async for m in await aw]
 
 
 def _gather(ctx, loop, batch):
